@@ -152,6 +152,16 @@ func c04prop(ev *evid.Rec) func(rt *rapid.T) {
 		if len(editedNames) > 0 && rapid.Bool().Draw(rt, "aimAtEdited") {
 			login = rapid.SampledFrom(editedNames).Draw(rt, "editedLogin")
 		}
+		// now and then the login is an existing one (or the empty one, which means guest) followed by NUL bytes: that is
+		// another byte string, it names no account
+		baseLogin := login
+		if baseLogin == "" {
+			baseLogin = "guest"
+		}
+		nulTail := rapid.IntRange(0, 7).Draw(rt, "loginWithNulTail") == 0
+		if nulTail {
+			login += strings.Repeat("\x00", rapid.IntRange(1, 2).Draw(rt, "nuls"))
+		}
 		loginAbsent := login == "" && rapid.Bool().Draw(rt, "loginAbsent")
 		effLogin := login
 		if effLogin == "" {
@@ -166,6 +176,9 @@ func c04prop(ev *evid.Rec) func(rt *rapid.T) {
 				basis = op // "correct" for a login that was renamed away or deleted means: what used to be right
 			} else {
 				basis = rapid.SampledFrom(c04Passwords).Draw(rt, "basis")
+			}
+			if p, ok := pw[baseLogin]; ok && nulTail {
+				basis = p // the password of the account whose login it resembles
 			}
 		}
 		switch pwKind {
